@@ -172,46 +172,47 @@ pub fn build<Ctx: ScriptContext>(w: &World, tap: bool, t: &T) -> Option<(Miniscr
     let key = |i: usize| w.key(i, tap);
     let ks = |v: &Vec<usize>| -> Vec<Key> { v.iter().map(|&i| w.key(i, tap)).collect() };
     let j = t.num as usize;
-    let term: Terminal<Key, Ctx> = match t.tg {
-        Tg::True => Terminal::True,
-        Tg::False => Terminal::False,
-        Tg::PkK => Terminal::PkK(key(j)),
-        Tg::PkH => Terminal::PkH(key(j)),
-        Tg::RawPkH => Terminal::RawPkH(raw_pkh(w, j, tap)),
-        Tg::After => Terminal::After(AbsLockTime::from_consensus(t.num).ok()?),
-        Tg::Older => Terminal::Older(RelLockTime::from_consensus(t.num).ok()?),
-        Tg::Sha256 => Terminal::Sha256(w.sha256_img(j)),
-        Tg::Hash256 => Terminal::Hash256(w.hash256_img(j)),
-        Tg::Ripemd160 => Terminal::Ripemd160(w.ripemd160_img(j)),
-        Tg::Hash160 => Terminal::Hash160(w.hash160_img(j)),
-        Tg::Alt => Terminal::Alt(kids[0].clone()),
-        Tg::Swap => Terminal::Swap(kids[0].clone()),
-        Tg::Check => Terminal::Check(kids[0].clone()),
-        Tg::DupIf => Terminal::DupIf(kids[0].clone()),
-        Tg::Verify => Terminal::Verify(kids[0].clone()),
-        Tg::NonZero => Terminal::NonZero(kids[0].clone()),
-        Tg::ZeroNotEqual => Terminal::ZeroNotEqual(kids[0].clone()),
-        Tg::AndV => Terminal::AndV(kids[0].clone(), kids[1].clone()),
-        Tg::AndB => Terminal::AndB(kids[0].clone(), kids[1].clone()),
-        Tg::AndOr => Terminal::AndOr(kids[0].clone(), kids[1].clone(), kids[2].clone()),
-        Tg::OrB => Terminal::OrB(kids[0].clone(), kids[1].clone()),
-        Tg::OrD => Terminal::OrD(kids[0].clone(), kids[1].clone()),
-        Tg::OrC => Terminal::OrC(kids[0].clone(), kids[1].clone()),
-        Tg::OrI => Terminal::OrI(kids[0].clone(), kids[1].clone()),
-        Tg::Thresh => Terminal::Thresh(Threshold::new(j, kids.clone()).ok()?),
-        Tg::Multi => Terminal::Multi(Threshold::new(j, ks(&t.keys)).ok()?),
-        Tg::SortedMulti => Terminal::SortedMulti(Threshold::new(j, ks(&t.keys)).ok()?),
-        Tg::MultiA => Terminal::MultiA(Threshold::new(j, ks(&t.keys)).ok()?),
-        Tg::SortedMultiA => Terminal::SortedMultiA(Threshold::new(j, ks(&t.keys)).ok()?),
+    // The term is constructed afresh for each use (children are shared through Arc): the harness
+    // never calls Terminal::clone / Miniscript::clone on its own account, they are observed operations.
+    let mk = || -> Option<Terminal<Key, Ctx>> {
+        Some(match t.tg {
+            Tg::True => Terminal::True,
+            Tg::False => Terminal::False,
+            Tg::PkK => Terminal::PkK(key(j)),
+            Tg::PkH => Terminal::PkH(key(j)),
+            Tg::RawPkH => Terminal::RawPkH(raw_pkh(w, j, tap)),
+            Tg::After => Terminal::After(AbsLockTime::from_consensus(t.num).ok()?),
+            Tg::Older => Terminal::Older(RelLockTime::from_consensus(t.num).ok()?),
+            Tg::Sha256 => Terminal::Sha256(w.sha256_img(j)),
+            Tg::Hash256 => Terminal::Hash256(w.hash256_img(j)),
+            Tg::Ripemd160 => Terminal::Ripemd160(w.ripemd160_img(j)),
+            Tg::Hash160 => Terminal::Hash160(w.hash160_img(j)),
+            Tg::Alt => Terminal::Alt(Arc::clone(&kids[0])),
+            Tg::Swap => Terminal::Swap(Arc::clone(&kids[0])),
+            Tg::Check => Terminal::Check(Arc::clone(&kids[0])),
+            Tg::DupIf => Terminal::DupIf(Arc::clone(&kids[0])),
+            Tg::Verify => Terminal::Verify(Arc::clone(&kids[0])),
+            Tg::NonZero => Terminal::NonZero(Arc::clone(&kids[0])),
+            Tg::ZeroNotEqual => Terminal::ZeroNotEqual(Arc::clone(&kids[0])),
+            Tg::AndV => Terminal::AndV(Arc::clone(&kids[0]), Arc::clone(&kids[1])),
+            Tg::AndB => Terminal::AndB(Arc::clone(&kids[0]), Arc::clone(&kids[1])),
+            Tg::AndOr => Terminal::AndOr(Arc::clone(&kids[0]), Arc::clone(&kids[1]), Arc::clone(&kids[2])),
+            Tg::OrB => Terminal::OrB(Arc::clone(&kids[0]), Arc::clone(&kids[1])),
+            Tg::OrD => Terminal::OrD(Arc::clone(&kids[0]), Arc::clone(&kids[1])),
+            Tg::OrC => Terminal::OrC(Arc::clone(&kids[0]), Arc::clone(&kids[1])),
+            Tg::OrI => Terminal::OrI(Arc::clone(&kids[0]), Arc::clone(&kids[1])),
+            Tg::Thresh => Terminal::Thresh(Threshold::new(j, kids.iter().map(Arc::clone).collect()).ok()?),
+            Tg::Multi => Terminal::Multi(Threshold::new(j, ks(&t.keys)).ok()?),
+            Tg::SortedMulti => Terminal::SortedMulti(Threshold::new(j, ks(&t.keys)).ok()?),
+            Tg::MultiA => Terminal::MultiA(Threshold::new(j, ks(&t.keys)).ok()?),
+            Tg::SortedMultiA => Terminal::SortedMultiA(Threshold::new(j, ks(&t.keys)).ok()?),
+        })
     };
-    // the kids vector must not keep extra strong references alive (Clone unwraps the Arcs it builds,
-    // not these, but keep the value self-contained anyway)
-    drop(kids);
-    match Miniscript::from_ast(term.clone()) {
+    match Miniscript::from_ast(mk()?) {
         Ok(m) => Some((m, all_ok)),
         Err(_) => {
             let dummy = Miniscript::<Key, Ctx>::TRUE;
-            Some((Miniscript::from_components_unchecked(term, dummy.ty, dummy.ext), false))
+            Some((Miniscript::from_components_unchecked(mk()?, dummy.ty, dummy.ext), false))
         }
     }
 }
